@@ -1,6 +1,8 @@
 import SJ.Props.C16
 import SJ.Props.Typed
 import SJ.Props.C16Float
+import SJ.Props.C16Ap
+import SJ.Props.C16ApFloat
 #print axioms SJ.Props.C16.c16_owned_borrowed
 #print axioms SJ.Props.C16.c16_agree_partial
 #print axioms SJ.Props.C16.c16_ignored_total
@@ -15,6 +17,10 @@ import SJ.Props.C16Float
 #print axioms SJ.Props.C16.c16_text_agrees_partial
 #print axioms SJ.Props.C16.c16_text_agrees_nofloat
 #print axioms SJ.Props.C16.c16_text_agrees_fr
+#print axioms SJ.Props.C16.c16_text_agrees_ap_partial
+#print axioms SJ.Props.C16.c16_ap_oracle_domain
+#print axioms SJ.Props.C16.c16_ap_accurate_fr
+#print axioms SJ.Props.C16.c16_text_agrees_ap_fr
 #print axioms SJ.Props.Typed.typed_fuel_suffices
 #print axioms SJ.Props.Typed.typed_fuel_irrelevant
 #print axioms SJ.Props.Typed.typed_no_panic
